@@ -478,6 +478,9 @@ class AttestationCommunity(Community):
             self.request_cache.pop(*HashCache.id_from_hash("proving-hash", payload.challenge_hash))
             proving_cache = cache.proving_cache
             pcache_prefix, pcache_id = HashCache.id_from_hash("proving-attestation", proving_cache.hash)
+            if not self.request_cache.has(pcache_prefix, pcache_id):
+                # This verification has ended: it completed, timed out or was aborted because the peer cheated.
+                return
             challenge = None
             if payload.challenge_hash in proving_cache.hashed_challenges:
                 proving_cache.hashed_challenges.remove(payload.challenge_hash)
@@ -495,6 +498,7 @@ class AttestationCommunity(Community):
                 if self.request_cache.has(pcache_prefix, pcache_id):
                     self.request_cache.pop(pcache_prefix, pcache_id)
                 proving_cache.attestation_callbacks(proving_cache.hash, algorithm.create_certainty_aggregate(None))
+                return
             if len(proving_cache.hashed_challenges) == 0:
                 self.logger.info("Completed attestation verification")
                 # Completed
